@@ -79,6 +79,47 @@ RandSel(sh, x) == [r \in 1 .. RandomElement(1 .. MaxR(x)) |->
 RandCols(sh) == [e \in 1 .. Len(sh) |-> [s \in 1 .. Len(sh[e]) |->
                   {1} \cup RandomSubset(RandomElement(0 .. (NC - 1)), 2 .. NC)]]
 
+---------------------------------------------------------------------------
+\* BIG tables (tens of thousands of rows per Einsum): the concatenation Flat(e) is never
+\* built; RowOfA finds (sub-table, row) of the g-th row by walking the cumulative sizes.
+\* LocateLemma (checked as an invariant in the exhaustive configs) ties it to THE DEFINITION.
+RECURSIVE Locate(_, _, _)
+Locate(sh, s, g) == IF g < sh[s] THEN <<s, g + 1>> ELSE Locate(sh, s + 1, g - sh[s])
+RowOfA(e, g) == LET p == Locate(shape[e], 1, g) IN <<e, p[1], p[2]>>
+LocateLemma == \A e \in 1 .. E : \A g \in 0 .. (Total(e) - 1) : RowOfA(e, g) = RowOf(e, g)
+
+BigShapes == <<
+  << <<40000, 30000, 5>> >>,
+  << <<65535, 1, 2>>, <<3, 0, 65536, 4>> >>,
+  << <<256, 65280, 0, 7>>, <<2>> >>,
+  << <<20000, 20000, 20000, 20000>>, <<70000>>, <<1, 65535, 1>> >>,
+  << <<7, 65529, 65536, 9>> >> >>
+BigColsOf(e, s) == LET m == (e + s) % 3 IN
+                   CASE m = 0 -> 1 .. 4 [] m = 1 -> {1, 2} [] m = 2 -> {1, 3, 4}
+\* result rows 1..6 sit on the 16-bit boundaries where they exist; the others are drawn
+BigSel(sh, x) == [r \in 1 .. 10 |-> [e \in 1 .. Len(sh) |->
+                   LET n == SumSeq(sh[e])
+                       cand == <<0, n - 1, 65534, 65535, 65536, 65537>>
+                   IN IF r <= 6 /\ cand[r] < n THEN cand[r] ELSE RandomElement(0 .. (n - 1))]]
+BigRec == [big   |-> TRUE,
+           shape |-> shape,
+           cols  |-> [e \in 1 .. E |-> [s \in 1 .. Len(shape[e]) |->
+                        [col \in 1 .. NC |-> IF col \in cols[e][s] THEN 1 ELSE 0]]],
+           sel   |-> sel,
+           pick  |-> [r \in 1 .. R |-> [e \in 1 .. E |->
+                        LET id == RowOfA(e, sel[r][e]) IN <<id[2], id[3]>>]]]
+EmitBig == (c >= 0) => PrintT(ToJson(BigRec))
+BigInit ==
+  /\ shape = <<<<1>>>> /\ sel = <<<<0>>>> /\ cols = <<<<{1}>>>> /\ c = -1
+  /\ Rest
+BigNext ==
+  /\ c < NCases
+  /\ c' = c + 1
+  /\ shape' = BigShapes[(c' % Len(BigShapes)) + 1]
+  /\ sel' = BigSel(shape', c')
+  /\ cols' = [e \in 1 .. Len(shape') |-> [s \in 1 .. Len(shape'[e]) |-> BigColsOf(e, s)]]
+  /\ UNCHANGED <<phase, ce, cs, start, comp, ddKeys, ddVal, de, dstage, todo, itpos, curKey, found, out>>
+
 RandInit ==
   /\ shape = <<<<1>>>> /\ sel = <<<<0>>>> /\ cols = <<<<{1}>>>> /\ c = -1
   /\ Rest
